@@ -44,6 +44,7 @@ class SimFS:
         self.enotdir_fired = 0
         self.fds: dict[int, str] = {}
         self.next_fd = 1_000_000
+        self.encoding = "utf-8"   # codec of the stored bytes
         self.opens = 0
         self.stats = 0
         self.rlog = None  # optional storage.ReadLog: content reads per task
@@ -65,6 +66,7 @@ class SimFS:
         c = SimFS()
         c.files = dict(self.files)
         c.dirs = set(self.dirs)
+        c.encoding = self.encoding
         return c
 
     # ------------------------------------------------------------- access
@@ -99,7 +101,7 @@ class SimFS:
         self.log.append((_task_name(), "stat", path, "ENOENT"))
         raise FileNotFoundError(errno.ENOENT, os.strerror(errno.ENOENT), path)
 
-    def _open(self, path: str) -> io.StringIO:
+    def _open(self, path: str, encoding: str | None = None, errors: str | None = None) -> io.StringIO:
         self.opens += 1
         if self.rlog is not None:
             self.rlog.check_available(path)
@@ -125,7 +127,14 @@ class SimFS:
         self.log.append((_task_name(), "open", path, "ok"))
         if self.rlog is not None:
             self.rlog.ok()
-        t = _SimText(f[0])
+        text = f[0]
+        stored = self.encoding or "utf-8"
+        want = (encoding or "utf-8").lower().replace("_", "-")
+        if want != stored:
+            # the bytes on "disk" are text.encode(stored); a reader using another codec sees
+            # mojibake or fails, exactly like a real file
+            text = text.encode(stored).decode(want, errors or "strict")
+        t = _SimText(text)
         self.next_fd += 1
         t._fd = self.next_fd
         self.fds[t._fd] = path
@@ -180,7 +189,7 @@ def install() -> None:
             return real_open(self, mode, buffering, encoding, errors, newline)
         if "r" not in mode or "b" in mode or "+" in mode:
             raise OSError(errno.EROFS, "SimFS is read-only through Path.open", s)
-        return ACTIVE._open(s)
+        return ACTIVE._open(s, encoding, errors)
 
     pathlib.Path.stat = stat  # type: ignore[method-assign]
     pathlib.Path.open = open_  # type: ignore[method-assign]
@@ -228,9 +237,10 @@ def install() -> None:
             return real_io_open(file, mode, *args, **kwargs)
         if "r" not in mode or "+" in mode:
             raise OSError(errno.EROFS, "SimFS is read-only through open()", s)
-        f = ACTIVE._open(s)
+        enc = kwargs.get("encoding") if "encoding" in kwargs else (args[1] if len(args) > 1 else None)
+        f = ACTIVE._open(s, None if "b" in mode else enc, kwargs.get("errors"))
         if "b" in mode:
-            data = f.getvalue().encode("utf-8")
+            data = f.getvalue().encode(ACTIVE.encoding or "utf-8")
             b = _SimBytes(data)
             b._fd = f._fd
             return b
